@@ -138,9 +138,10 @@ def run_impl(case, cir):
             n = p.data.size
             row = {"data": flat(p.data), "req": bool(p.requires_grad), "grad": None if p._grad is None else flat(p._grad), "slots": {}}
             for name, kind in cir.slots:
-                if i in pos:
-                    v = getattr(opt, name)[pos[i]]
-                else:
+                lst = getattr(opt, name, None)
+                if i in pos and isinstance(lst, list) and pos[i] < len(lst):
+                    v = lst[pos[i]]
+                else:       # tensor not given / an optimizer that keeps this state differently: report the initial value
                     v = None if kind == "opt" else 0
                 if kind == "int":
                     row["slots"][name] = int(v)
